@@ -766,6 +766,27 @@ func c09KeyOrError(c *Ctx, r *Report, a *Anchors, rule string) {
 			if cal := t.Call.StaticCallee(); cal != nil && cal == a.addError {
 				return true
 			}
+		case *ssa.Slice:
+			// a list of constructed errors made to be returned: return []error{resWarnp(..)}, directly or through
+			// the variable an inlined helper's result is kept in
+			if isErrSlice(t.Type()) {
+				if el, ok := sliceLitElems(t); ok && len(el) > 0 && t.Referrers() != nil {
+					for _, ref := range *t.Referrers() {
+						switch u := ref.(type) {
+						case *ssa.Return:
+							return true
+						case *ssa.Phi:
+							if u.Referrers() != nil {
+								for _, r2 := range *u.Referrers() {
+									if _, isRet := r2.(*ssa.Return); isRet {
+										return true
+									}
+								}
+							}
+						}
+					}
+				}
+			}
 		}
 		return false
 	}
